@@ -369,7 +369,7 @@ def run(tier):
     full_doc = parse(full_query)
     fragments_text = full_query[full_query.index("fragment FullType"):]
     lookup_query = "query L($n: String!) { __type(name: $n) { ...FullType } }\n" + fragments_text
-    n_schemas = 30 if quick else 160
+    n_schemas = 30 if quick else 60
     validated = set()
     n_model_cases = [0]
 
@@ -454,7 +454,7 @@ def run(tier):
             if e:
                 ck.violation(key, f"result does not conform to the introspection types: {e}", rep)
             # extracted model: introspect and prune (on a subset in quick to bound the model time)
-            if not quick or ci < 6 or ci % 3 == 0:
+            if (ci < 6 or ci % 3 == 0) if quick else (ci + i) % 4 == 0:
                 cases.append([8] + bits + enc)
                 meta.append((key, rep, "Introspect.introspect(enc s, o)", r))
                 cases.append([9] + bits + wfull)
@@ -537,6 +537,36 @@ def run(tier):
 
 
 def replay(path):
+    """Re-evaluate the direct laws for the schema of a replay file (SDL-built schemas only)."""
+    from graphql import build_schema, graphql_sync, print_schema
+    from graphql.utilities import build_client_schema, find_schema_changes, introspection_from_schema
     d = json.loads(open(path).read())
-    print(json.dumps({k: v for k, v in d.items() if k not in ("original", "client")}, indent=1)[:3000])
-    return 1
+    print(json.dumps({k: v for k, v in d.items() if k not in ("original", "client", "sdl")}, indent=1)[:3000])
+    if "sdl" not in d or d.get("programmatic"):
+        print("programmatic schema: re-run ./check C18 with the recorded seed")
+        return 1
+    try:
+        s = build_schema(d["sdl"], experimental_directives_on_directive_definitions=True)
+        full = introspection_from_schema(s, **{k: True for k in OPTS})
+        bad = []
+        o = d.get("options")
+        if o:
+            r = introspection_from_schema(s, **o)
+            dd = json_diff(r, py_prune(full, o))
+            if dd:
+                bad.append("prune: " + dd)
+        if d.get("query"):
+            res = graphql_sync(s, d["query"])
+            print("ad-hoc result:", json.dumps(res.data)[:500], res.errors)
+        c = build_client_schema(full)
+        if print_schema(c) != print_schema(s):
+            bad.append("client print differs")
+        if find_schema_changes(s, c) or find_schema_changes(c, s):
+            bad.append("client changes")
+        if introspection_from_schema(c, **{k: True for k in OPTS}) != full:
+            bad.append("client re-introspection differs")
+        print("failed laws:", bad)
+        return 1 if bad else 0
+    except Exception as e:  # noqa: BLE001
+        print("replay raised", type(e).__name__, e)
+        return 1
